@@ -116,7 +116,7 @@ func c14Run(cfg *C14Cfg, ch vs.Chooser, trace bool) (*Outcome, *vs.Result) {
 		status int
 		done   bool
 	}
-	res := vs.Run(vs.Config{Chooser: ch, Horizon: 20000, Trace: trace}, func() {
+	res := vs.Run(vs.Config{Chooser: ch, PostUnlockPoints: true, Horizon: 20000, Trace: trace}, func() {
 		vs.NoChoice(true)
 		util.VerifNoSync = true // durability is engine C's subject
 		types.ShouldPunchHoles = false
@@ -326,7 +326,7 @@ func c14CtlRun(cfg *C14CtlCfg, ch vs.Chooser, trace bool) (*Outcome, *vs.Result)
 		status int
 		done   bool
 	}
-	res := vs.Run(vs.Config{Chooser: ch, Horizon: 30000, Trace: trace}, func() {
+	res := vs.Run(vs.Config{Chooser: ch, PostUnlockPoints: true, Horizon: 30000, Trace: trace}, func() {
 		vs.NoChoice(true)
 		cl, err := c18Build(cfg.Init)
 		if err != nil {
